@@ -290,7 +290,7 @@ theorem no_ddash_append_space (d : Str) (h : Str.isInfix ddash d = false) : Str.
 /-- **C20 (comments).** with `preventDoubleDashComments` a coerced comment never contains `--` nor ends in `-`. -/
 theorem C20_comment (f : Flags) (data r : Str) (hf : f.preventDoubleDashComments = true)
     (h : coerceComment f data = .ok r) : r.contains ddash = false ∧ endsWithDash r = false := by
-  simp only [coerceComment, hf, if_true] at h
+  simp only [coerceComment, hf, if_true, Bool.true_or, Bool.true_and] at h
   cases hl : coerceCommentLoop (data.length + 2) data with
   | error e => rw [hl] at h; simp [bind, Except.bind] at h
   | ok d =>
@@ -306,6 +306,27 @@ theorem C20_comment (f : Flags) (data r : Str) (hf : f.preventDoubleDashComments
     · simp only [he] at h
       subst h
       exact ⟨nd, by simpa using he⟩
+
+/-- **C20 (comments, trailing dash).** with `preventDashAtCommentEnd` alone (fix c900095: the flag used to be stored and
+never read) a coerced comment never ends in `-`, and nothing but one trailing space is added. -/
+theorem C20_comment_dash_end (f : Flags) (data r : Str) (hf : f.preventDashAtCommentEnd = true)
+    (hd : f.preventDoubleDashComments = false) (h : coerceComment f data = .ok r) :
+    endsWithDash r = false ∧ (r = data ∨ r = data ++ [32]) := by
+  simp only [coerceComment, hf, hd, Bool.false_or, Bool.true_and, Bool.false_eq_true, if_false, bind, Except.bind,
+    pure, Except.pure] at h
+  injection h with h
+  by_cases he : endsWithDash data = true
+  · simp only [he, if_true] at h
+    subst h
+    exact ⟨by simp [endsWithDash], Or.inr rfl⟩
+  · simp only [he] at h
+    subst h
+    exact ⟨by simpa using he, Or.inl rfl⟩
+
+/-- without either flag comments pass through unchanged -/
+theorem C20_comment_off (f : Flags) (data : Str) (h1 : f.preventDoubleDashComments = false)
+    (h2 : f.preventDashAtCommentEnd = false) : coerceComment f data = .ok data := by
+  simp [coerceComment, h1, h2, bind, Except.bind, pure, Except.pure]
 
 def isBadPubid (c : Nat) : Bool := inRanges nonPubidChar c
 
